@@ -119,4 +119,41 @@ PoleInverse(pole, L, lat, lon, first) ==
              ELSE (IF north THEN 0 ELSE 180),
     azi2 |-> IF first THEN (IF north THEN 180 ELSE 0)
              ELSE (IF north THEN Norm180(L - lon) ELSE Norm180(lon + 180 - L)) ]
+
+(* ------------------------------------------------------------------------ *)
+(* Spheres of radius rk * 180/pi (rk = 1, 2): one degree of arc is rk        *)
+(* metres, so an arc length (degrees) and a distance (metres) are different   *)
+(* numbers for rk = 2.  Angles do not depend on rk; s12 = rk a12,             *)
+(* m12 = rk R sin(a12), S12 = rk^2 (alpha2 - alpha1) U.                       *)
+(* ------------------------------------------------------------------------ *)
+Radii == {1, 2}
+
+(* ------------------------------------------------------------------------ *)
+(* Pairs with lat2 = +-lat1 and a generic longitude difference (the first     *)
+(* item of the catalogue of Geodesic.hpp): lat1 = +-45, lon2 - lon1 = +-90.   *)
+(* Same parallel: cos(a12) = sin^2 + cos^2 cos(90) = 1/2, a12 = 60; the       *)
+(* geodesic is symmetric about its vertex, azi2 = 180 - azi1, with            *)
+(* tan(azi1) = sqrt(2): A = 54.735610317245346 degrees.  Mirror parallels:    *)
+(* cos(a12) = -1/2, a12 = 120; the geodesic is symmetric about its node,      *)
+(* azi2 = azi1 (the unique case of the catalogue), S12 = 0.                   *)
+(* Azimuths are c0 + c1 A, written <<c0, c1>>.                                *)
+(* ------------------------------------------------------------------------ *)
+AQ == 54735610       \* A in micro-degrees (rounded) ...
+AR == 317245         \* ... and the remainder in 1e-12 degree
+\* c0 + c1 A as the pair <<round(v 1e6), remainder in 1e-12>> the driver logs
+Lin(c0, c1) ==
+  LET q == 1000000 * c0 + c1 * AQ  r == c1 * AR IN
+  IF r > 500000 THEN <<q + 1, r - 1000000>> ELSE IF r < -500000 THEN <<q - 1, r + 1000000>> ELSE <<q, r>>
+Sqrt3 == <<1732051, -192431>>     \* 2 sin(60) = 2 sin(120) = 1.7320508075688772
+
+SameParallel(lat, mirror, dl) ==
+  LET e == IF dl > 0 THEN 1 ELSE -1          \* eastward / westward
+      n == IF lat > 0 THEN 1 ELSE -1         \* hemisphere of point 1
+      pole == <<180 * e, -e>>                \* heading on the poleward side of due east / west (180 - A, or -(180 - A))
+      eq == <<0, e>>                         \* A, or -A
+  IN IF mirror
+     THEN [ a12 |-> 120, azi1 |-> IF n = 1 THEN pole ELSE eq, azi2 |-> IF n = 1 THEN pole ELSE eq,
+            m2 |-> Sqrt3, M2 |-> -1, S12 |-> <<0, 0>> ]
+     ELSE [ a12 |-> 60, azi1 |-> IF n = 1 THEN eq ELSE pole, azi2 |-> IF n = 1 THEN pole ELSE eq,
+            m2 |-> Sqrt3, M2 |-> 1, S12 |-> <<180 * n * e, -2 * n * e>> ]
 =============================================================================
